@@ -137,7 +137,7 @@ func CmdCheck(args []string) int {
 			continue
 		}
 		rf := replayFile{Harness: k.Harness, Pkg: k.Pkg, Assert: k.Witness.Assert, Inputs: k.Witness.Inputs, Params: k.Params}
-		path := filepath.Join(VerifDir, "replays", id, "known-"+k.ID+".json")
+		path := filepath.Join(OutDir, "replays", id, "known-"+k.ID+".json")
 		if err := writeJSON(path, rf); err != nil {
 			fmt.Fprintln(os.Stderr, err)
 			return 2
@@ -281,7 +281,7 @@ func CmdCheck(args []string) int {
 			seen[v.Assert] = true
 			v.Harness = r.Func
 			rf := replayFile{Harness: r.Func, Pkg: r.Pkg, Assert: v.Assert, Msg: v.Msg, Inputs: v.Inputs, Params: params, Known: knownIDs, Notes: v.Notes}
-			path := filepath.Join(VerifDir, "replays", id, fmt.Sprintf("%s-%s-%d.json", label, sanitizeFile(v.Assert), i))
+			path := filepath.Join(OutDir, "replays", id, fmt.Sprintf("%s-%s-%d.json", label, sanitizeFile(v.Assert), i))
 			if err := writeJSON(path, rf); err != nil {
 				fmt.Fprintln(os.Stderr, err)
 				return 2
@@ -308,7 +308,7 @@ func CmdCheck(args []string) int {
 	// the real build; every assertion must hold there too and every input
 	// must be consumed in the same order.
 	if len(batch) > 0 && os.Getenv("VERIF_NO_NATIVE_SAMPLES") == "" {
-		path := filepath.Join(VerifDir, "replays", id, "samples-"+tier+".json")
+		path := filepath.Join(OutDir, "replays", id, "samples-"+tier+".json")
 		if err := writeJSON(path, replayFile{Harness: "batch", Pkg: batchPkg, Batch: batch, Known: sortedKeys(activeKnown)}); err != nil {
 			fmt.Fprintln(os.Stderr, err)
 			return 2
